@@ -13,7 +13,12 @@ suite=$(cargo test --workspace --no-fail-fast --offline 2>&1 | grep -E "^test re
 fails=$(echo "$suite" | grep -c FAILED)
 npass=$(echo "$suite" | sed -E 's/.* ([0-9]+) passed.*/\1/' | paste -sd+ | bc)
 cp "$OUT/demo.rs" tests/seed_demo.rs
-demo_with=$(cargo test --offline --test seed_demo 2>&1 | grep -E "^test result" | head -1)
+demo_out=$(cargo test --offline --test seed_demo 2>&1)
+demo_with=$(echo "$demo_out" | grep -E "^test result" | head -1)
+# a demonstration that kills the test process (stack overflow, abort) prints no result line
+if [ -z "$demo_with" ] && echo "$demo_out" | grep -qE "SIGABRT|SIGSEGV|has overflowed its stack|process abort"; then
+  demo_with="FAILED (test process died: $(echo "$demo_out" | grep -E "SIGABRT|SIGSEGV|has overflowed its stack" | head -1 | cut -c1-120))"
+fi
 git checkout -q -- src
 demo_without=$(cargo test --offline --test seed_demo 2>&1 | grep -E "^test result" | head -1)
 rm -f tests/seed_demo.rs
